@@ -167,6 +167,53 @@ Theorem C16_error_kind_witness_repaired :
 Proof. exact misattribution_repaired. Qed.
 Print Assumptions C16_error_kind_witness_repaired.
 
+(* Host level: which ProcessCaps field feeds which quantity of the protocol (regenerated from
+   run_host_process and ProcessCommand::validate), and the deadline of a command. *)
+Theorem C16_cap_routing :
+  (forall s, reader_cap_field s = F_max_capture_bytes_per_stream) /\
+  poll_field = F_wait_poll_ms /\
+  timeout_fallback_field = F_default_timeout_ms /\
+  timeout_upper_field = F_max_timeout_ms /\
+  wait_deadline_is_spec_timeout = true.
+Proof. exact cap_routing_lemma. Qed.
+Print Assumptions C16_cap_routing.
+
+(* no explicit timeout => deadline = default_timeout_ms *)
+Theorem C16_unset_timeout_is_default :
+  forall hc, 0 < hc F_default_timeout_ms <= hc F_max_timeout_ms ->
+  effective_timeout hc None = Some (hc F_default_timeout_ms).
+Proof. exact unset_timeout_is_default_lemma. Qed.
+Print Assumptions C16_unset_timeout_is_default.
+
+(* an explicit timeout is used as it is; 0 and anything above max_timeout_ms is refused *)
+Theorem C16_explicit_timeout :
+  forall hc t, effective_timeout hc (Some t) =
+  if (t =? 0) || (hc F_max_timeout_ms <? t) then None else Some t.
+Proof. exact explicit_timeout_lemma. Qed.
+Print Assumptions C16_explicit_timeout.
+
+Theorem C16_mk_cfg_fields :
+  forall hc b pc o1 o2 code c,
+  mk_cfg hc b pc o1 o2 code = Some c ->
+  pol1 c = b_pol1 b /\ pol2 c = b_pol2 b /\
+  cap c = hc F_max_capture_bytes_per_stream /\ poll c = hc F_wait_poll_ms /\
+  timeout c = (match b_timeout b with Some t => t | None => hc F_default_timeout_ms end) /\
+  timeout c <> 0 /\ timeout c <= hc F_max_timeout_ms /\
+  out1 c = o1 /\ out2 c = o2 /\ ecode c = code.
+Proof. exact mk_cfg_fields_lemma. Qed.
+Print Assumptions C16_mk_cfg_fields.
+
+Theorem C16_unset_timeout_deadline :
+  forall hc b pc o1 o2 code c sched,
+  mk_cfg hc b pc o1 o2 code = Some c -> b_timeout b = None -> cfg_ok c ->
+  (w (run c sched (init c)) = WDone (RErr ETimeout) ->
+   exists t, g_tmo (run c sched (init c)) = Some t /\ hc F_default_timeout_ms <= t) /\
+  (forall st, w st = WDeadline -> hc F_default_timeout_ms <= clock st ->
+   exists st', step c st Waiter = Some st' /\
+     forall sched' r, w (run c sched' st') = WDone r -> r = RErr ETimeout).
+Proof. exact unset_timeout_deadline_lemma. Qed.
+Print Assumptions C16_unset_timeout_deadline.
+
 (* The hypotheses are satisfiable and every kind of outcome occurs. *)
 Definition ex_cfg (n1 n2 : nat) (tmo : Z) : cfg :=
   {| pol1 := PCapture; pol2 := PCapture; cap := 4; timeout := tmo; poll := 1; pcap := 8;
@@ -197,4 +244,10 @@ Example C16_ex_timeout :
     [Waiter; Waiter; Waiter; Tick; Tick; Waiter; Waiter; Waiter; Waiter; Waiter; Waiter;
      Reader S1 0; Reader S1 0; Reader S2 0; Reader S2 0; Waiter; Waiter]
   = Finished (RErr ETimeout).
+Proof. vm_compute. reflexivity. Qed.
+
+(* default 300 ms, maximum 3000 ms, poll 7 ms: an unset timeout is 300, not 3000 and not 7 *)
+Example C16_ex_unset_timeout :
+  effective_timeout (hc_of_list [4096; 4096; 256; 65536; 262144; 128; 256; 16384; 131072; 1048576; 100; 300; 3000; 7]) None
+  = Some 300.
 Proof. vm_compute. reflexivity. Qed.
